@@ -393,6 +393,11 @@ def run_api(case: dict) -> CaseResult:
         dev.noise_handshake_hook = hook
         hello = noise_ref.server_hello(dev.noise_name)
         _f, _b, _n, want, _p = apply_deviation(d, hello, b"\x00" + bytes(48), [])
+    elif what == "api_name":
+        # the device holds the right key; its Noise hello announces no name (old firmware) or the expected one, but the
+        # authenticated HelloResponse names a different device: "a mismatching device name" must end the session
+        dev.name = case["api_name"]
+        want = {"BadNameAPIError"}
     elif what == "wrong_key":
         dev.noise_key = bytes(32)
         want = {"InvalidEncryptionKeyAPIError"}
@@ -435,16 +440,16 @@ def run_api(case: dict) -> CaseResult:
     if want is not None:
         if what == "keystr" and any(e["kind"] == "write" for e in env.trace):
             res.violations.append(Violation(ID, "c04:api:keystr:bytes-written-before-rejection", case["s"][:60]))
-        if "BadNameAPIError" in want and r is not None and r[0] == "exc" and getattr(r[1], "received_name", None) != name:
+        if "BadNameAPIError" in want and r is not None and r[0] == "exc" and getattr(r[1], "received_name", None) != (case["api_name"] if what == "api_name" else name):
             res.violations.append(Violation(ID, "c04:api:bad-name-without-received-name", repr(r[1])))
         if stops:
             res.violations.append(Violation(ID, "c04:api:on_stop-called", str(stops)))
         left = env.audit()
         if left:
             res.violations.append(Violation(ID, "c04:api:not-closed", ";".join(left[:4])))
-        if any(e["kind"] == "deliver" for e in env.trace):
+        if any(e["kind"] == "deliver" and not (what == "api_name" and e["type"] in (2, 4)) for e in env.trace):
             res.violations.append(Violation(ID, "c04:api:delivery-despite-deviation", what))
-    res.classes = ["api", "api_" + what] + (["keystr"] if what == "keystr" else ["handshake_phase"] if what in ("dev", "wrong_key") else ["framing"])
+    res.classes = ["api", "api_" + what] + (["keystr"] if what == "keystr" else ["handshake_phase"] if what in ("dev", "wrong_key", "api_name") else ["framing"])
     res.nontrivial = want is not None
     res.info = {"what": what, "outcome": outcome}
     env.close()
@@ -530,6 +535,9 @@ def enumerated(tier):
         yield {"mode": "api", "what": "dev", "dev": {"kind": "name"}, "name": nm, "expected": ex}
     for what in ("wrong_key", "plain_device_noise_client", "noise_device_plain_client"):
         yield {"mode": "api", "what": what}
+    for nn in (None, "dev"):
+        for an in ("garage", "Dev", "dev2"):
+            yield {"mode": "api", "what": "api_name", "name": nn, "expected": "dev", "api_name": an}
 
 
 @st.composite
